@@ -506,6 +506,8 @@ func (s *Store[H]) setHead(ctx context.Context, write datastore.Write, to uint64
 		return fmt.Errorf("getting head: %w", err)
 	}
 
+	s.ptrMu.Lock()
+	defer s.ptrMu.Unlock()
 	// update the contiguous head and the published height, which moves backwards here
 	s.contiguousHead.Store(&newHead)
 	s.heightSub.Init(newHead.Height())
